@@ -1,0 +1,10 @@
+//go:build verif
+
+// Accessors for the external verification harness (/verif).  Compiled only with -tags verif;
+// add-only, no behaviour of the package changes.
+package kcp
+
+// VerifRingState exposes the raw layout of a ring buffer.
+func VerifRingState[T any](r *RingBuffer[T]) (head, tail int, elems []T) {
+	return r.head, r.tail, r.elements
+}
